@@ -130,11 +130,14 @@ def verify_function(world, qual, timeout_ms=10000):
         if os.environ.get('PYVC_NO_RETRY'):
             break        # development runs against seeded changes: an undecided obligation is already the signal
         if ob.verdict == 'undecided' and not getattr(ob, 'known_budget', False):
-            first = ob.seconds
-            ob.verdict = None
-            solve_one(ob, timeout_ms * 3)
-            ob.note = (ob.note or '') + ' (retry after %.1fs undecided)' % first
-            ob.seconds += first
+            for factor in (3, 6):
+                first = ob.seconds
+                ob.verdict = None
+                solve_one(ob, timeout_ms * factor)
+                ob.note = (ob.note or '') + ' (retry x%d after %.1fs undecided)' % (factor, first)
+                ob.seconds += first
+                if ob.verdict != 'undecided':
+                    break
     # reachability covers are existential: a loop body / the precondition must be reachable on SOME path through the function
     reach = {}
     for ob in ex.obls:
